@@ -18,6 +18,12 @@ the real supervisorctl do_update / do_reread / do_stop / do_remove / do_add as t
 inside a main-loop pass; monitors over the kernel's child table, the reported pids, fork/kill/wait records and the
 RPC answers (no fork for a removed group, no live child outside the process table, convergence to the file with the
 file's options, unreported groups keep their pids, reread by itself touches nothing).
+The working directory: the old file (and the monitors' reference parse of the new one) is read in one directory, every
+reread happens in another (what daemonize() does with [supervisord] directory=); path-valued options are given relative.
+Unparsable files: every class of rejected file (config_l1.corruptions, %-expressions that fail with a TypeError /
+ValueError / KeyError in every option of every section kind, breakage below the option level) must be answered with
+CANT_REREAD by reloadConfig, by supervisorctl reread / update, and by the daemon (real files through the real parser),
+nothing changed.
 """
 import copy, io, os, re
 import config_l1 as L
@@ -39,6 +45,13 @@ TRUSTED = C14.TRUSTED + [
     "by the uid: SocketConfig.__eq__ only compares owners, and two derived owners are equal exactly when the uids are",
 ]
 TRUSTED = TRUSTED + [
+    "Model/Reread.lean `pyBases` / `formatRaises`: the fragment of CPython's exception hierarchy and the classes `str % dict` raises are written by hand; "
+    "`absIn` (a relative name made absolute) does not normalise `.` / `..`; the model's text for a failed %-expression does not tell `%Y` (ValueError) "
+    "from `+%d` (TypeError): both count as the TypeError",
+    "the change of directory of daemonize() is represented by os.chdir around the real parse calls (pairs, histories) and by a daemonize seam doing "
+    "os.chdir(options.directory) (daemon population with real files: every file version rendered as an ini file and read by the real "
+    "ServerOptions.process_config; command=/sim/<name> is how the simulated kernel recognises a program; options.mktempfile is replaced by a function "
+    "returning a name)",
     "daemon population (props/_c15_daemon.py): harness/simkernel.py stands for the kernel (fork/waitpid/kill/pipes, virtual clock); the configuration "
     "file is represented by lists of program descriptions, and options.process_config of the daemon's real ServerOptions object is replaced by a "
     "function that installs the config objects (real ProcessConfig / ProcessGroupConfig) of the current file version, which is what reading the file "
@@ -71,7 +84,19 @@ RULE = ("(a) histories: one daemon (real ServerOptions/Supervisor/rpcinterface/d
         "remove by hand then update, two file versions in a row, an unparsable version in between; the update starts at a random pass and every "
         "request is issued 0-3 passes after the previous answer.  Small-scope exhaustive part: seven structured worlds x every latency in 0..3 before "
         "stopProcessGroup, removeProcessGroup (and addProcessGroup) x every phase of the batch job, so that each request is dispatched in every "
-        "state of the group's members, in particular the removal in the pass right after a member exited with its restart pending")
+        "state of the group's members, in particular the removal in the pass right after a member exited with its restart pending.  "
+        "(e) the working directory: in (a)-(c) the old file is parsed in one directory and every reread happens in another one holding the same relative "
+        "sub-directories; files whose stdout_logfile / stderr_logfile / directory / command (and [supervisord] childlogdir / logfile / pidfile / directory, "
+        "sections moved into an included file) are relative: unchanged, sections reordered, one relative path respelt / made absolute / dropped, every "
+        "single-attribute mutation, both directions, and histories reread / reread / update / reread / change / reread / update; (d) has the same with "
+        "real files read by the real parser before and after the daemon changed directory (update with an unchanged file touches no pid).  "
+        "(f) files that cannot be parsed, every class: config_l1.corruptions with must_reject (malformed value of every typed option, malformed expansions, "
+        "cross-option constraints, names, environment, events, sockets, [supervisord] values), %-expressions failing with a TypeError (unkeyed numeric "
+        "conversions such as the unescaped strftime percent of `/bin/date +%d`, numeric conversions of string expansions such as %(program_name)d) / "
+        "ValueError / KeyError in every option of program, eventlistener, fcgi-program, group, supervisord and include sections, and breakage below the "
+        "option level (no section header, a line that is no option, unterminated header, leading continuation line, empty file, no file, bytes that are "
+        "not UTF-8, [include] without files=): as pairs (reloadConfig, supervisorctl reread, supervisorctl update), as histories (unparsable version, "
+        "reread, update, parsable version again) and in (d) as real files")
 
 VALUE_POOL = {
     'command': ['/bin/other', '/bin/cat --new'], 'priority': ['7', '998'], 'autostart': ['false', 'true'], 'autorestart': ['true', 'false', 'unexpected'],
@@ -302,7 +327,7 @@ def mutations(rng, cfg, everything):
         out.append(('unparsable', setopt(prog[0], 'startsecs', 'soon')))
     out.append(('unparsable-no-supervisord', [s for s in secs if s[0] != 'supervisord']))
     # every other class of unparsable file (a sample; unparsable_population() takes all of them over small files)
-    out.extend(rng_pick(rng, unparsable_versions(rng, secs, False), 24 if everything else 4))
+    out.extend(rng_pick(rng, unparsable_versions(rng, secs, False), 12 if everything else 4))
     # path-valued options given relative to the working directory (which differs between the first parse and a reread)
     for si in (prog if everything else rng_pick(rng, prog, 1)):
         for k, vals in sorted(REL_VALUES.items()):
@@ -779,7 +804,9 @@ def one_pair(ctx, st, cfg, label, newsecs, tag, include=()):
                         return self.rpc.reloadConfig()
                 except RPCError as e:                       # what the XML-RPC layer does with an RPCError
                     raise xmlrpclib.Fault(e.code, e.text)
-        for cmd in ('reread', 'update'):
+        # (each of the two commands on every third unparsable file: the classes are those of the direct call above)
+        st['nunparsable'] = st.get('nunparsable', 0) + 1
+        for cmd in (('reread', 'update') if st['nunparsable'] % 3 == 1 or tag in ('c', 'r') else ()):
             px = FaultProxy(rpc, [g.name for g in old_groups]); ctl = Ctl(px)
             out = 'returned'
             try:
@@ -829,7 +856,7 @@ def one_pair(ctx, st, cfg, label, newsecs, tag, include=()):
                     res[1], want_changed, {n: diffs[n][:6] for n in missed + extra}), inp)
             if label.split('~')[0] in ('unchanged', 'relative/unchanged') and (res[0] or res[1] or res[2]):
                 ctx.violation('unchanged-file-reports-difference' + chdir_suffix(), impl_diff, inp)
-            if not (res[0] or res[1] or res[2]):
+            if not (res[0] or res[1] or res[2]) and label.split('~')[0] in ('unchanged', 'relative/unchanged', 'relative/sections-reordered', 'sections-reordered'):
                 # nothing reported: it stays that way however often the daemon is asked
                 with at_cwd(rundir):
                     r2, d2 = reread()
@@ -906,7 +933,8 @@ def one_pair(ctx, st, cfg, label, newsecs, tag, include=()):
         ctx.count('not-modelled:events-hash-order'); return      # the model compares the subscriptions as a set
     fake = L.Outcome(); fake.parser, fake.include_done, fake.pre_env, fake.here = inst[0], True, pre_env2, o.here
     new_toks = L.model_tokens(fake, dirs)
-    st['cases'].append(('case reread ' + ' '.join(old_toks) + ' -- ' + ' '.join(new_toks), ops))
+    # (C=: the working directory of each parse -- the model's parse takes it as a parameter)
+    st['cases'].append(('case reread C=%s ' % L.hx(launch) + ' '.join(old_toks) + ' -- C=%s ' % L.hx(rundir) + ' '.join(new_toks), ops))
     st['impls'].append(lines)
     st.setdefault('origin', {})[st['cases'][-1][0]] = [(cfg['sections'], newsecs)]
     if len(ctx.samples) < 5 and label != 'unchanged':
@@ -1191,7 +1219,7 @@ def run_history(ctx, st, secs0, steps, tag='h'):
             if toks is None or not in_subset(prs):
                 modelled = False
             else:
-                ops.append('reread T ' + ' '.join(toks))
+                ops.append('reread T C=%s ' % L.hx(rundir) + ' '.join(toks))
         elif step[0] == 'update':
             px = HProxy()
             ctl = Ctl(px)
@@ -1232,7 +1260,7 @@ def run_history(ctx, st, secs0, steps, tag='h'):
             if px.toks is None or not in_subset(px.parser):
                 modelled = False
             else:
-                ops.append('update %s T %s' % (','.join(L.hx(x) for x in step[1]) or '-', ' '.join(px.toks)))
+                ops.append('update %s T C=%s %s' % (','.join(L.hx(x) for x in step[1]) or '-', L.hx(rundir), ' '.join(px.toks)))
         elif step[0] in ('remove', 'add'):
             g = step[1]
             try:
@@ -1254,7 +1282,7 @@ def run_history(ctx, st, secs0, steps, tag='h'):
     events.clear()
     ctx.case_done(('history', repr(secs0), repr(steps)), True)
     if modelled and len(ops) == len(lines):
-        st['hcases'].append(('case history ' + ' '.join(toks0), ops))
+        st['hcases'].append(('case history C=%s ' % L.hx(launch) + ' '.join(toks0), ops))
         st['himpls'].append(lines)
         files = [secs0] + [x[1] for x in steps if x[0] == 'write']
         st.setdefault('origin', {}).setdefault(st['hcases'][-1][0], []).extend(zip(files, files[1:]))
@@ -1482,8 +1510,8 @@ def run(ctx):
     for secs0, steps in HISTORY_CORPUS:
         run_history(ctx, st, secs0, steps)
     attr_population(ctx, st, rng, ctx.n(2, 16), 30 if ctx.tier == 'quick' else 60)
-    unparsable_population(ctx, st, rng, ctx.n(3, 12), 0 if ctx.tier == 'quick' else 2, 6)
-    relpath_population(ctx, st, rng, ctx.n(3, 18), 8)
+    unparsable_population(ctx, st, rng, ctx.n(2, 12), 0 if ctx.tier == 'quick' else 2, 5)
+    relpath_population(ctx, st, rng, ctx.n(2, 18), 6)
     for i in range(ctx.n(8, 80)):
         cfg = L.gen_config(rng, ctx.scratch, small=True)
         cfg['include'] = []
@@ -1581,7 +1609,9 @@ TECHNIQUE = ("Lean 4 theorems over a model of config equality (compared attribut
              "ServerOptions + Supervisor.diff_to_active + reloadConfig + DefaultControllerPlugin.do_update; the guard in front of group.transition() in "
              "runforever and the attributes ProcessGroupBase.__eq__ compares are regenerated from supervisord.py / process.py and a one-pass model of "
              "the group table proves that a group removed by a request of the pass is not transitioned; schedule exploration of supervisorctl "
-             "update / reread / remove against the unmodified main loop over a simulated kernel with children")
+             "update / reread / remove against the unmodified main loop over a simulated kernel with children; the except clauses around `s % expansions` in "
+             "expand() and around process_config() in reloadConfig, the functions applied to a child log file name and the working-directory dependent calls "
+             "of the functions that build configurations are regenerated from options.py / rpcinterface.py")
 LEVEL_TEXT = ("equality is characterised field by field for every pair of process configurations (eq_characterised, eq_refl) and of group configurations of "
               "each kind (group_/pool_/fcgi_/socket_eq_characterised; ne_characterised / changed_exact: a group is listed as changed exactly when its kind, "
               "priority, a process, buffer size, event subscriptions, result handler or a socket option differs), the shape of the coded comparisons is "
@@ -1592,6 +1622,10 @@ LEVEL_TEXT = ("equality is characterised field by field for every pair of proces
               "group list taken at the top of a main-loop pass and every table the requests of that pass leave, a group object that is no longer in the "
               "table is not transitioned, so nothing is forked for it (removed_group_not_transitioned, nothing_forked_for_removed_group, with the decided "
               "counterexample equality_guard_transitions_removed_group for a guard decided by ProcessGroupBase.__eq__), and active groups still are "
-              "(active_group_still_transitioned)")
+              "(active_group_still_transitioned); whatever class a failing %-expression has in CPython a ValueError leaves expand() and every failure of the "
+              "model's parse is answered CANT_REREAD with the state untouched (format_failure_is_value_error, unparsable_answered_cant_reread, counterexample "
+              "narrowed_handler_lets_type_error_escape); the parse does not depend on the working directory and an unchanged file read after a change of "
+              "directory reports nothing (config_builders_cwd_free, parse_independent_of_cwd, unchanged_file_reports_nothing_after_chdir, counterexample "
+              "normalized_logfile_depends_on_cwd)")
 LEVEL_NOTE = "stops are assumed to complete (stopProcessGroup of the model); the daemon side of add/remove is applied by precondition in the harness proxy"
 DESIGN_REF = "DESIGN.md section 6, C15"
